@@ -166,6 +166,17 @@ int main()
 			uintptr_t c0 = internal::RadixSorterCodeGetter<int**>()(&p0), c = internal::RadixSorterCodeGetter<int**>()(&p);
 			printf("%llu %d\n", ull(c - c0), int(c == reinterpret_cast<uintptr_t>(p))); continue;
 		}
+		if (cmd0 == "GGRP")
+		{	// the real private HashSorter::pvGroup on an array of item ids
+			size_t n; is0 >> n; std::vector<long long> v(n + 2, -7);
+			for (size_t i = 0; i < n; ++i) is0 >> v[i + 1];
+			long long* b = v.data() + 1; std::ostringstream os;
+			auto eq = [] (long long x, long long y) { return x == y; };
+			auto swapper = [] (long long* x, long long* y) { std::iter_swap(x, y); };
+			HashSorter::pvGroup(b, n, eq, swapper);
+			for (size_t i = 0; i < n; ++i) os << b[i] << (i + 1 < n ? " " : "");
+			printf("%s%s\n", (v[0] == -7 && v[n + 1] == -7) ? "" : "OOB ", os.str().c_str()); continue;
+		}
 		if (cmd0 == "GSEL")
 		{	// the real private RadixSorter<8>::pvSelectionSort on an array of 64-bit codes; ALL groupFunc calls are logged
 			size_t n; is0 >> n; std::vector<uint64_t> v(n + 2, 0x5555555555555555ull);
